@@ -28,6 +28,7 @@ def _promo(name, method, witness_sets, slack_of, gated=False):
         bounded = lambda: unrolled_transition(t, A, ALGOS[name], name + "." + method, "exactly_the_uncoverable_candidates_move_to_P",
                                               S=lambda e: z3.And(z3.Select(A.S0, e), z3.Not(z3.And(open_, new(e)))),
                                               P=lambda e: z3.Or(z3.Select(A.P0, e), z3.And(open_, new(e))), enable=open_ if gated else None)
+        t.bounded_fn = bounded
         try:
             paths = t.run(ALGOS[name], name + "." + method, [], self_val=A.obj, setmode=True)
         except Unsupported as ex_:
@@ -74,6 +75,7 @@ def _useful(name):
         A = AlgoState(t, name)
         useful = Specs(A).useful(A.S0, A.P0, A.REG0, A.alpha_eps)
         bounded = lambda: unrolled_transition(t, A, ALGOS[name], name + ".useful_updating", "U_is_exactly_members_of_P_that_can_still_cover_a_candidate", U=useful)
+        t.bounded_fn = bounded
         try:
             paths = t.run(ALGOS[name], name + ".useful_updating", [], self_val=A.obj, setmode=True)
         except Unsupported as ex_:
